@@ -85,6 +85,8 @@ def iter_loop(eng, s, it, st, fr, k, enum_start=None):
     for _, f in L._norm(inv(se, total)):
         se = se.assume(eng.S.b(f))
     se = se.with_cell(it.base, "pos", n)
+    if getattr(spec, "on_exit", None):
+        se = spec.on_exit(eng, se)
     return eng.ex(s.orelse, se, fr, k)
 
 
